@@ -40,6 +40,15 @@ CHECKS["C17"] = dict(
     note="trusted: TLC; CovModel.main_axes() for the direction of the rotated axes (checked separately under C12); tolerance 1e-9*sqrt(var)",
 )
 
+CHECKS["C07"] = dict(
+    technique="TLA+ state machine (CondCache.tla: configuration/dirty flag + provenance tags of the cached kriging results) model-checked with TLC; behaviours replayed on real CondSRF objects against freshly built ones",
+    text="TLC explores all histories of calls, set_pos, set_condition (new data / refresh), in-place and re-assigned model changes, mean/trend re-assignment and delete_fields, checking that a call made in a refreshed state "
+         "never uses a kriging result of another configuration or other positions. Behaviours are replayed on CondSRF(Simple/Ordinary): field, raw_krige and krige_var must equal a freshly built object's, the field must equal "
+         "mean + krige + sqrt(krige_var/var) * unconditional field of the same seed assembled from independent objects, honour the data and approach mean + unconditional field far away (simple kriging).",
+    design_ref="DESIGN.md §4.5, §5 C07",
+    note="trusted: TLC; conservative reading (calls in a dirty state are not compared); independent Krige/SRF objects of the same library for the formula oracle (pinned by C05/C11)",
+)
+
 ALL = ["C%02d" % i for i in range(1, 21)]
 
 
